@@ -320,6 +320,11 @@ var universe = []Obj{
 	// calls them equal, from one side only
 	V(L(I("1"), I("2"), I("3"))), V(L(I("1"))), V(L()), V(V(I("1"))), V(V(I("1"), I("2"))), V(V()), A(L(I("1"), I("2"))), A(L(I("1"), I("2"), I("3"))), A(V(I("1"))), A(V(I("1"), I("2"))),
 	L(V(L(I("1")))), L(V(L(I("1"), Obj{K: "nil"}))), L(L(I("1"), I("2"), I("3"))), V(Str("ab")), V(Str("abc")), L(Sym("k"), V(L(I("1")))), L(Sym("k"), V(L(I("1"), I("2")))),
+	// vectors with a fill pointer below their size: whichever way equality treats the elements beyond the fill pointer, it
+	// must do so from both sides (and for the vector as an element of a list)
+	Src("(make-array 3 :initial-contents '(1 2 3) :fill-pointer 2)"), Src("(make-array 3 :initial-contents '(1 2 9) :fill-pointer 2)"), Src("(make-array 2 :initial-contents '(1 2) :fill-pointer 2)"),
+	Src("(make-array 3 :initial-contents '(1 2 3) :fill-pointer 3)"), V(I("1"), I("2"), I("3")), L(Src("(make-array 3 :initial-contents '(1 2 3) :fill-pointer 2)")), L(V(I("1"), I("2"))),
+	Src("(make-array 2 :initial-contents '(1 2) :fill-pointer 0)"),
 	// lossy rational/float pairs inside vectors, lists and rank-2 arrays (elements are compared through Object.Equal)
 	V(D("0.3333333333333333")), V(F("0.33333334")), L(D("0.3333333333333333")), L(F("0.33333334")),
 	V(R("1/10")), V(D("0.1")), V(F("0.1")), V(I(two53p)), V(D("9007199254740992")), V(I("16777217")), V(F("16777216")),
